@@ -241,3 +241,13 @@ Theorem C06_translated_loop_iteration_refines_submit_full : forall (c : cfg) (f 
     end.
 Proof. exact GoLiteSubmitLoopRefine.translated_iter_refines_submit. Qed.
 Print Assumptions C06_translated_loop_iteration_refines_submit_full.
+
+(* THE WHOLE LOOP.  [code_submit] runs the translated iteration again and again, reading off the code's own observation
+   what happened (nil returned? which items did postSubmit receive? which remain? which backoff?); for every
+   configuration, every number of attempts left up to maxSubmitAttempts, every backoff, every list of heights, every
+   script of DA answers, every side and clock it is Submitter.submit — result, side, unconsumed script and time. *)
+Theorem C06_translated_retry_loop_is_submit_full : forall c fuel b done rem sc sd el,
+  (fuel <= 30)%nat ->
+  GoLiteSubmitLoopRefine.code_submit c fuel b done rem sc sd el = submit c fuel b rem sc sd el.
+Proof. exact GoLiteSubmitLoopRefine.code_submit_is_submit. Qed.
+Print Assumptions C06_translated_retry_loop_is_submit_full.
